@@ -64,7 +64,16 @@ def r1_exits(ctx: Context, v: CalibrateView) -> None:
     abstractly for each row (sa/pathval.py), tests on anything else fork, and every resulting path must take the expected exit."""
     from ..calib import iteration_table
     head = v.head
-    ctx.check(src(head.ast) == "range(n_batches)", "R1.range", "Calibrator.calibrate:loop-iterator",
+    range_ok = src(head.ast) == "range(n_batches)"
+    if not range_ok:
+        # `enumerate(range(n_batches))`, `range(0, n_batches)`, ...: the trip count read through the canonical loop header
+        from ..util import loop_binding
+        try:
+            _benv, counts_ = loop_binding(v.loop_stmt.target, v.loop_stmt.iter)
+            range_ok = bool(counts_) and all(src(c_).replace(" ", "") in ("n_batches", "n_batches-0") for c_ in counts_)
+        except (AnalysisError, AttributeError):
+            range_ok = False
+    ctx.check(range_ok, "R1.range", "Calibrator.calibrate:loop-iterator",
               "the batch loop iterates range(n_batches)", f"the batch loop iterates `{src(head.ast)}`", v.cal, head.ast)
     ctx.floor("R1", "check_convergence call in calibrate", len(v.convergence), 1)
     rows = []
